@@ -32,6 +32,10 @@ var Corpus = [][]string{
 	// it): stopping the proxy closes the surviving side at once all the same
 	{"upstream u1 1", "create p1 u1 1", "tadd p1 down t1 latency 6000 0 0 1", "connect p1 c1", "sendnw c1 down 100", "closenw c1 client", "disable p1"},
 	{"upstream u1 1", "create p1 u1 1", "tadd p1 up t1 latency 6000 0 0 1", "connect p1 c1", "sendnw c1 up 100", "closenw c1 server", "delete p1"},
+	// C13: reset_peer ends the connection with a TCP reset at both peers, with and without data in flight
+	{"upstream u1 1", "create p1 u1 1", "tadd p1 up t1 reset_peer 30 0 0 1", "connect p1 c1", "sendnw c1 up 10"},
+	{"upstream u1 1", "create p1 u1 1", "tadd p1 down t1 reset_peer 30 0 0 1", "connect p1 c1", "sendnw c1 up 100", "sendnw c1 down 100"},
+	{"upstream u1 1", "create p1 u1 1", "tadd p1 down t1 reset_peer 0 0 0 1", "connect p1 c1", "connect p1 c2", "sendnw c2 down 5", "sendnw c1 down 5"},
 	// C03: changing the upstream of a proxy drops the connections made so far
 	{"upstream u1 1", "upstream u2 1", "create p1 u1 1", "connect p1 c1", "send c1 up 3", "setupstream p1 u2", "connect p1 c2", "send c2 up 3"},
 }
@@ -252,19 +256,59 @@ func Sweep(e *Engine, tier string, seed uint64, res *report.Result) {
 			e.OracleOnly = false
 		}
 	}
+	searching := false
+	budget := -1 // histories left in the oracle-only search after a disagreement (-1: not searching)
+	// handle: what to do with a failing history; true = the sweep is over
+	handle := func(ops []string, f *report.Failure) bool {
+		if searching {
+			// after a disagreement: looking for a model-free failing input only
+			if f.Kind == "oracle" {
+				res.Failures = append(res.Failures, *run.Minimize(e, ops, f))
+				return true
+			}
+			return false
+		}
+		report1(ops, f)
+		if len(res.Failures) >= 3 {
+			return true
+		}
+		if f.Kind == "disagreement" {
+			for _, x := range res.Failures {
+				if x.Kind == "oracle" {
+					return true
+				}
+			}
+			// the model and the implementation differ and the failing history itself violates
+			// no oracle: search on (bounded) with the model-free oracles alone - through the rest
+			// of the corpus too
+			searching = true
+			e.OracleOnly = true
+			budget = 120
+			res.Notes = append(res.Notes, "search after disagreement: up to 120 further histories with the model-free oracles only")
+			return false
+		}
+		return false
+	}
+	defer func() { e.OracleOnly = false }()
 	for _, c := range Corpus {
 		if f := e.Run(c, res); f != nil {
-			report1(c, f)
-			return
+			if handle(c, f) {
+				return
+			}
 		}
 	}
-	searching := false
 	r := rng.New(seed)
 	n := 150
 	if tier == "thorough" {
 		n = 3000
 	}
 	for i := 0; i < n; i++ {
+		if searching {
+			if budget == 0 {
+				break
+			}
+			budget--
+		}
 		var ops []string
 		switch {
 		case i%5 == 3:
@@ -279,36 +323,8 @@ func Sweep(e *Engine, tier string, seed uint64, res *report.Result) {
 			ops = Episode(r)
 		}
 		if f := e.Run(ops, res); f != nil {
-			if searching {
-				// after a disagreement: looking for a model-free failing input only
-				if f.Kind == "oracle" {
-					res.Failures = append(res.Failures, *run.Minimize(e, ops, f))
-					break
-				}
-				continue
-			}
-			report1(ops, f)
-			if len(res.Failures) >= 3 {
+			if handle(ops, f) {
 				return
-			}
-			if f.Kind == "disagreement" {
-				hasOracle := false
-				for _, x := range res.Failures {
-					if x.Kind == "oracle" {
-						hasOracle = true
-					}
-				}
-				if hasOracle {
-					return
-				}
-				// the model and the implementation differ and the failing history itself violates
-				// no oracle: search on (bounded) with the model-free oracles alone
-				searching = true
-				e.OracleOnly = true
-				if n > i+120 {
-					n = i + 120
-				}
-				res.Notes = append(res.Notes, "search after disagreement: up to 120 further histories with the model-free oracles only")
 			}
 		}
 	}
